@@ -255,7 +255,8 @@ class exttype_to_opaque:
         b = self.type_def.bound
         return {"P_written_bound_is_computed": implies(cls_is(b, ExplicitBound), result.bound == as_cls(b, ExplicitBound).bound)
                 and implies(cls_is(b, FromParamsBound), (result.bound == TypeBound.Copyable) == args_cp(self.args, as_cls(b, FromParamsBound).indices)),
-                "same_args": eq(result.args, self.args) and result.id == self.type_def.name}
+                "same_args": eq(result.args, self.args) and result.id == self.type_def.name,
+                "extension_name": result.extension == the(self.type_def._extension).name}
 
 
 # ---- sugar constructors: they build exactly the rows the statement names ---------------------
